@@ -399,6 +399,7 @@ def check(run):
     # built after a later update must see that update's tables)
     from .. import crules
     cast_, _ = crules.unit(run, ndebug=True)
+    crules.record_vptr_rules(run, r[0], cast_)
     for x in ("C09-h1", "C09-h2", "C09-h4", "C09-h5"):
         run.rule(x, "(decided by C05)", floor=0)
     crules.hash_rules(run, "C09-h1", "C09-h2", r[4], "C09-h4", "C09-h5", cast_)
